@@ -162,6 +162,7 @@ func (p *parseChild) kill() {
 
 var stats = map[string]int{}
 
+// execParse: h is `<hex>` or `<hex> <size.size.…>` (the pieces in which the stream reaches the reader)
 func execParse(h string) string {
 	if parser == nil {
 		parser = nextParser()
@@ -366,6 +367,55 @@ func execZero(h string) string {
 	return "reply:" + hlib.Hex(reply)
 }
 
+func parseSizes(s string) []int {
+	var out []int
+	for _, t := range strings.Split(s, ".") {
+		if n, err := strconv.Atoi(t); err == nil && n > 0 {
+			out = append(out, n)
+		}
+	}
+	return out
+}
+
+// writeChunked sends data in pieces of the given sizes (cycling), each as its own TCP segment
+// (TCP_NODELAY + a pause), so that the server's reader sees the request arrive in several reads.
+func writeChunked(c net.Conn, data []byte, sizes []int) error {
+	if len(sizes) == 0 {
+		_, err := c.Write(data)
+		return err
+	}
+	if tc, ok := c.(*net.TCPConn); ok {
+		tc.SetNoDelay(true)
+	}
+	// at most ~300 segments per stream: scale tiny pieces up on long streams
+	sum := 0
+	for _, n := range sizes {
+		sum += n
+	}
+	if pieces := len(data) * len(sizes) / sum; pieces > 300 {
+		f := (pieces + 299) / 300
+		scaled := make([]int, len(sizes))
+		for i, n := range sizes {
+			scaled[i] = n * f
+		}
+		sizes = scaled
+	}
+	for i := 0; len(data) > 0; i++ {
+		n := sizes[i%len(sizes)]
+		if n > len(data) {
+			n = len(data)
+		}
+		if _, err := c.Write(data[:n]); err != nil {
+			return err
+		}
+		data = data[n:]
+		if len(data) > 0 {
+			time.Sleep(400 * time.Microsecond)
+		}
+	}
+	return nil
+}
+
 func cksum(b []byte) uint32 {
 	var a uint64
 	for _, x := range b {
@@ -377,7 +427,7 @@ func cksum(b []byte) uint32 {
 // execEcho sends ECHO/PING commands (inline or arrays, lines of any length) on a fresh connection
 // of the real server, half-closes and canonicalises the reply stream: `pong`, `bulk<len>/<cksum>`,
 // `err:<text>`.
-func execEcho(h string) string {
+func execEcho(h string, sizes string) string {
 	data := hlib.UnHex(h)
 	s := ensureServer()
 	c, err := net.DialTimeout("tcp", s.addr, 2*time.Second)
@@ -386,12 +436,12 @@ func execEcho(h string) string {
 	}
 	defer c.Close()
 	go func() {
-		c.Write(data)
+		writeChunked(c, data, parseSizes(sizes))
 		if tc, ok := c.(*net.TCPConn); ok {
 			tc.CloseWrite()
 		}
 	}()
-	c.SetReadDeadline(time.Now().Add(20 * time.Second))
+	c.SetReadDeadline(time.Now().Add(30 * time.Second))
 	r := bufio.NewReaderSize(c, 1<<16)
 	var out []string
 	for {
@@ -532,10 +582,8 @@ func errKind(cmd, msg string) string {
 	return "other:" + strings.ReplaceAll(msg, " ", "_")
 }
 
-func (cl *client) do(args [][]byte) string {
-	if cl.closed {
-		return "closed"
-	}
+// wire renders one command as a RESP array, keys prefixed with the connection's nonce
+func (cl *client) wire(args [][]byte) []byte {
 	send := make([][]byte, len(args))
 	copy(send, args)
 	for _, i := range keyPositions(args) {
@@ -543,9 +591,41 @@ func (cl *client) do(args [][]byte) string {
 			send[i] = append([]byte(cl.nonce), args[i]...)
 		}
 	}
+	return encodeArray(send)
+}
+
+func (cl *client) do(args [][]byte) string {
+	if cl.closed {
+		return "closed"
+	}
 	cl.c.SetDeadline(time.Now().Add(10 * time.Second))
-	if _, err := cl.c.Write(encodeArray(send)); err != nil {
+	if _, err := cl.c.Write(cl.wire(args)); err != nil {
 		cl.closed = true
+		return "closed"
+	}
+	return cl.readReply(args)
+}
+
+// pipeline writes several commands back to back in chosen pieces and then reads one reply per command
+func (cl *client) pipeline(cmds [][][]byte, sizes []int) string {
+	if cl.closed {
+		return strings.TrimSuffix(strings.Repeat("closed;", len(cmds)), ";")
+	}
+	var data []byte
+	for _, a := range cmds {
+		data = append(data, cl.wire(a)...)
+	}
+	cl.c.SetDeadline(time.Now().Add(60 * time.Second))
+	go writeChunked(cl.c, data, sizes)
+	out := make([]string, len(cmds))
+	for i, a := range cmds {
+		out[i] = cl.readReply(a)
+	}
+	return strings.Join(out, ";")
+}
+
+func (cl *client) readReply(args [][]byte) string {
+	if cl.closed {
 		return "closed"
 	}
 	hdr, err := readReplyLine(cl.r)
@@ -611,9 +691,9 @@ type engine struct{ prop string }
 
 func (e *engine) Rule() string {
 	if e.prop == "C29" {
-		return "C29: command sequences (8–40 commands) over 3 keys plus the empty key on one connection to the real server; values: integers at the int64 limits, blank/odd numerals, arbitrary bytes; ~18% of the steps are INCRBY/DECRBY pairs with stored value and delta both from {MinInt64, MinInt64+1, -1, 0, 1, MaxInt64-1, MaxInt64}; SET with NX/XX and EX/PX/EXAT/PXAT far in the past or future; non-trivial = a key is accessed again after it was given an expiry or written conditionally, or an INCR-family command answers an integer/overflow error"
+		return "C29: command sequences (8–40 commands) over 3 keys plus the empty key on one connection to the real server; values: integers at the int64 limits, blank/odd numerals, arbitrary bytes; ~18% of the steps are INCRBY/DECRBY pairs with stored value and delta both from {MinInt64, MinInt64+1, -1, 0, 1, MaxInt64-1, MaxInt64}; SET with NX/XX and EX/PX/EXAT/PXAT far in the past or future; values of 6000 bytes after small early arguments, MSETs and pipelines of small commands longer than 4 KiB and 64 KiB written to the socket in chosen pieces (cuts inside headers, between arguments, inside bulks, at 4095/4096/4097), one reply per command compared; non-trivial = a key is accessed again after it was given an expiry or written conditionally, or an INCR-family command answers an integer/overflow error"
 	}
-	return "C31: byte streams for parseRESP: well-formed arrays and inline commands, truncated/mutated frames, declared array and bulk lengths from -2^63 to 10^30 (small, 32 MiB–512 MiB, ≥ 32 GiB, > maxAlloc), random protocol bytes; inline commands and frame header lines of 4094–4098, 8 KiB±1 and 64 KiB±1 bytes (bufio's buffer sizes), also as ECHO/PING traffic over TCP to the real server with the exact replies compared; every other case also sends zero-argument frames (`*0`, `*-1`, blank and white-space-only lines) plus PING to the real server over TCP (must answer +PONG); non-trivial = the stream is not a plain well-formed one (the parse ends with an error other than a clean EOF, or is unsafe)"
+	return "C31: byte streams for parseRESP: well-formed arrays and inline commands, truncated/mutated frames, declared array and bulk lengths from -2^63 to 10^30 (small, 32 MiB–512 MiB, ≥ 32 GiB, > maxAlloc), random protocol bytes; inline commands and frame header lines of 4094–4098, 8 KiB±1 and 64 KiB±1 bytes (bufio's buffer sizes), also as ECHO/PING traffic over TCP to the real server with the exact replies compared; streams are delivered to parseRESP's 4096-byte bufio.Reader, and to the server's socket, in chosen pieces (1 byte, inside headers, between arguments, inside bulks, 4095/4096/4097), incl. pipelines > 4 KiB and > 64 KiB and commands whose last argument is 6000 bytes; every other case also sends zero-argument frames (`*0`, `*-1`, blank and white-space-only lines) plus PING to the real server over TCP (must answer +PONG); non-trivial = the stream is not a plain well-formed one (the parse ends with an error other than a clean EOF, or is unsafe)"
 }
 
 func (e *engine) Exec(ops []string) []string {
@@ -627,9 +707,9 @@ func (e *engine) Exec(ops []string) []string {
 	for i, op := range ops {
 		f := strings.Fields(op)
 		switch {
-		case len(f) == 2 && f[0] == "parse":
+		case (len(f) == 2 || len(f) == 3) && f[0] == "parse":
 			t0 := time.Now()
-			out[i] = execParse(f[1])
+			out[i] = execParse(strings.Join(f[1:], " "))
 			stats["ms_parse"] += int(time.Since(t0).Milliseconds())
 			stats["n_parse"]++
 		case len(f) == 2 && f[0] == "conn":
@@ -637,13 +717,17 @@ func (e *engine) Exec(ops []string) []string {
 			out[i] = execConn(f[1])
 			stats["ms_conn"] += int(time.Since(t0).Milliseconds())
 			stats["n_conn"]++
-		case len(f) == 2 && f[0] == "echo":
-			out[i] = execEcho(f[1])
+		case (len(f) == 2 || len(f) == 3) && f[0] == "echo":
+			sizes := ""
+			if len(f) == 3 {
+				sizes = f[2]
+			}
+			out[i] = execEcho(f[1], sizes)
 			stats["n_echo"]++
 		case len(f) == 2 && f[0] == "zero":
 			out[i] = execZero(f[1])
 			stats["n_zero"]++
-		case len(f) >= 2 && f[0] == "cmd":
+		case len(f) >= 2 && (f[0] == "cmd" || f[0] == "pipe"):
 			if cl == nil {
 				s := ensureServer()
 				c, err := net.DialTimeout("tcp", s.addr, 2*time.Second)
@@ -653,6 +737,28 @@ func (e *engine) Exec(ops []string) []string {
 				}
 				nonceCounter++
 				cl = &client{c: c, r: bufio.NewReader(c), nonce: fmt.Sprintf("n%d:", nonceCounter)}
+			}
+			if f[0] == "pipe" {
+				// pipe <sizes> <arg,arg,…;arg,…;…>
+				if len(f) != 3 {
+					out[i] = "bad-op"
+					continue
+				}
+				var cmds [][][]byte
+				for _, c := range strings.Split(f[2], ";") {
+					var a [][]byte
+					for _, h := range strings.Split(c, ",") {
+						b := hlib.UnHex(h)
+						if b == nil {
+							b = []byte{}
+						}
+						a = append(a, b)
+					}
+					cmds = append(cmds, a)
+				}
+				out[i] = cl.pipeline(cmds, parseSizes(f[1]))
+				stats["n_pipe"]++
+				continue
 			}
 			args := make([][]byte, len(f)-1)
 			for j, h := range f[1:] {
